@@ -105,7 +105,23 @@ func (v V) Node() ipld.Node {
 	return r
 }
 
-func (v V) assemble() qp.Assemble {
+// NodeNilBytes is Node, except that every EMPTY byte string is a bytes node without a backing array (what
+// basicnode.NewBytes(nil), literal.Any([]byte(nil)) or an unset []byte field of a bound Go struct give): the same
+// value in the data model, another representation in memory.
+func (v V) NodeNilBytes() ipld.Node {
+	n, err := qp.BuildMap(basicnode.Prototype.Any, 1, func(ma datamodel.MapAssembler) {
+		qp.MapEntry(ma, "x", v.assembleOpt(true))
+	})
+	if err != nil {
+		panic(fmt.Sprintf("val.Node: %v (%+v)", err, v))
+	}
+	r, _ := n.LookupByString("x")
+	return r
+}
+
+func (v V) assemble() qp.Assemble { return v.assembleOpt(false) }
+
+func (v V) assembleOpt(nilEmpty bool) qp.Assemble {
 	switch v.K {
 	case "null":
 		return qp.Null()
@@ -123,7 +139,10 @@ func (v V) assemble() qp.Assemble {
 		return qp.String(string(v.X))
 	case "bytes":
 		b := v.X
-		if b == nil {
+		if len(b) == 0 {
+			if nilEmpty {
+				return qp.Node(basicnode.NewBytes(nil))
+			}
 			b = []byte{}
 		}
 		return qp.Bytes(b)
@@ -132,13 +151,13 @@ func (v V) assemble() qp.Assemble {
 	case "list":
 		return qp.List(int64(len(v.L)), func(la datamodel.ListAssembler) {
 			for _, e := range v.L {
-				qp.ListEntry(la, e.assemble())
+				qp.ListEntry(la, e.assembleOpt(nilEmpty))
 			}
 		})
 	case "map":
 		return qp.Map(int64(len(v.M)), func(ma datamodel.MapAssembler) {
 			for _, e := range v.M {
-				qp.MapEntry(ma, e.K, e.V.assemble())
+				qp.MapEntry(ma, e.K, e.V.assembleOpt(nilEmpty))
 			}
 		})
 	}
